@@ -21,7 +21,8 @@ RULE = (
     "whose natural order differs from lexicographic and construction order.  Only problems optyx itself treats as "
     "LP are in the quantifier (others are counted).  Every case that holds cold is repeated on WARM objects: a first "
     "problem P + zz is built, extracted and solved, then P + A0 (same column count, every column shifted) is built "
-    "from the same variable / vector / matrix objects and checked against its own reference.  transitions = API calls on the real code (builder ops, "
+    "from the same variable / vector / matrix objects and checked against its own reference; plus left-deep accumulations "
+    "of 399 / 401 / 700 linear terms (fresh or shared composite term objects, + and -) as objective, <= row and == row.  transitions = API calls on the real code (builder ops, "
     "extract(), extract_linear_coefficient, extract_constant_term, one captured solve); an evaluation = one "
     "coefficient / right-hand side / bound / column name compared with the exact polynomial of the recipe.  "
     "Non-trivial = LP with a non-zero coefficient; distinct by canonical problem recipe."
@@ -95,6 +96,14 @@ def spell_vector(a, k):
         ("split-views", add(("mm", ("arr", tuple(float(x) for x in a[:2])), ("slice", V, 0, 2, None)),
                             mul(c(a[2]), ("idx", V, 2)), c(k))),
     ]
+    # the coefficient data in other dtypes / as a list of Python ints (coefficient menus are integers)
+    ai = tuple(int(x) for x in a)
+    out += [("c@v:int64", add(("mm", ("arr", ai, "int"), V), c(k))), ("v@c:int32", add(("mm", V, ("arr", ai, "int32")), c(k))),
+            ("LC:float32", add(("LC", ("arr", tuple(float(x) for x in a), "float32"), V), c(k))),
+            ("c@v:list-of-ints", add(("mm", ("lst", ai), V), c(k))),
+            ("c@(v+1):int64", add(("mm", ("arr", ai, "int"), ("vbin", "+", V, c(1))), c(k - sum(a))))]
+    if k == 0:
+        out += [("bare-c@v:int64", ("mm", ("arr", ai, "int"), V)), ("bare-LC:int32", ("LC", ("arr", ai, "int32"), V))]
     # every (vector node, constant) root shape in both operand orders: c@v op k, k op c@v, for op in + - * /
     neg = ("arr", tuple(-float(x) for x in a))
     half = ("arr", tuple(float(x) / 2 for x in a))
@@ -406,9 +415,97 @@ def check_problem(pr, tier, seed, rep=None, want=None, label=None, builder=None)
     return fails
 
 
+def check_deep(n, shared, op, rep=None, want=None):
+    """LP data of term-by-term accumulations deeper than the switch to explicit-stack traversals (n terms, left-deep),
+    as objective and as constraint, with composite terms that are fresh objects or ONE shared object."""
+    import optyx
+    from optyx import analysis
+
+    fails = Fails(want)
+    names = ["x[0]", "x[1]", "x[2]", "y"]
+    x = optyx.VectorVariable("x", 3, lb=0.0, ub=4.0)
+    y = optyx.Variable("y", lb=-1.0, ub=2.0)
+
+    def fee():
+        return 2 * x[0] + 3 * y - 1
+
+    kinds = [
+        (lambda: x[0], {"x[0]": 1.0}, 0.0),
+        (lambda: 2 * x[1], {"x[1]": 2.0}, 0.0),
+        (fee, {"x[0]": 2.0, "y": 3.0}, -1.0),
+        (lambda: x[2] * 0.5 + 0.25, {"x[2]": 0.5}, 0.25),
+        (lambda: -(y - x[1]), {"y": -1.0, "x[1]": 1.0}, 0.0),
+    ]
+    cache = {}
+
+    def term(k):
+        if shared:
+            if k not in cache:
+                cache[k] = kinds[k][0]()
+            return cache[k]
+        return kinds[k][0]()
+
+    coef = {nm: 0.0 for nm in names}
+    const = 0.0
+    acc = None
+    for i in range(n):
+        k = i % len(kinds)
+        sgn = 1.0 if (i == 0 or op == "+") else -1.0
+        t = term(k)
+        acc = t if acc is None else (acc + t if op == "+" else acc - t)
+        for nm, a in kinds[k][1].items():
+            coef[nm] += sgn * a
+        const += sgn * kinds[k][2]
+    tag = {"n": n, "shared_term_objects": shared, "op": op}
+    if rep:
+        rep.states += 1
+        rep.transitions += n + 4
+        rep.nt(("deep", n, shared, op))
+    try:
+        P = optyx.Problem().minimize(acc).subject_to(acc <= 5).subject_to((acc + y).eq(2))
+        if not P._is_linear_problem():
+            fails.add("deep-accumulation-not-treated-as-LP", **tag)
+            return fails
+        lp = analysis.LinearProgramExtractor().extract(P)
+        c0 = analysis.extract_constant_term(P.objective)
+    except RecursionError:
+        fails.add("RecursionError:deep-LP-extraction", **tag)
+        return fails
+    except Exception as ex:
+        fails.add("exception:deep-LP-extraction:" + type(ex).__name__, msg=str(ex)[:200], **tag)
+        return fails
+    exp = np.array([coef[nm] for nm in names])
+    if rep:
+        rep.evaluations += 3 * len(names) + 3
+    if list(lp.variables) != names:
+        fails.add("columns-not-the-natural-sorted-variables", got=list(lp.variables), expected=names, **tag)
+        return fails
+    if not np.allclose(np.asarray(lp.c, dtype=float), exp, rtol=1e-9, atol=1e-9):
+        fails.add("objective-coefficients:deep", got=np.asarray(lp.c), expected=exp, **tag)
+    if abs(c0 - const) > 1e-9 * max(1, abs(const)):
+        fails.add("objective-constant:deep", got=c0, expected=const, **tag)
+    A_ub, b_ub = np.asarray(lp.A_ub, dtype=float), np.asarray(lp.b_ub, dtype=float)
+    if A_ub.shape != (1, 4) or not np.allclose(A_ub[0], exp, rtol=1e-9, atol=1e-9) or abs(b_ub[0] - (5 - const)) > 1e-9 * max(1, abs(const)):
+        fails.add("A_ub-row:deep", got_row=A_ub, got_rhs=b_ub, expected_row=exp, expected_rhs=5 - const, **tag)
+    expe = exp + np.array([0.0, 0.0, 0.0, 1.0])
+    A_eq, b_eq = np.asarray(lp.A_eq, dtype=float), np.asarray(lp.b_eq, dtype=float)
+    ok_eq = A_eq.shape == (1, 4) and ((np.allclose(A_eq[0], expe, rtol=1e-9, atol=1e-9) and abs(b_eq[0] - (2 - const)) <= 1e-9 * max(1, abs(const)))
+                                      or (np.allclose(A_eq[0], -expe, rtol=1e-9, atol=1e-9) and abs(b_eq[0] + (2 - const)) <= 1e-9 * max(1, abs(const))))
+    if not ok_eq:
+        fails.add("A_eq-row:deep", got_row=A_eq, got_rhs=b_eq, expected_row=expe, expected_rhs=2 - const, **tag)
+    return fails
+
+
+DEEP = [(n, sh, op) for n in (399, 401, 700) for sh in (False, True) for op in ("+", "-")]
+
+
 def explore(item, tier, seed):
     i, n = item
     rep = Report()
+    if i == 0:
+        for (dn, sh, op) in DEEP:
+            for kind, d in check_deep(dn, sh, op, rep):
+                rep.violation(kind, {"label": ("deep", dn, sh, op), "problem": None, "deep": [dn, sh, op]}, **d)
     for k, (label, pr) in enumerate(all_cases(tier)):
         if k % n != i:
             continue
@@ -435,8 +532,11 @@ def culprit(v):
 
 
 def replay(art):
-    pr = detuple(art["violation"]["case"]["problem"])
     kind = art["culprit"]["kind"]
+    if art["violation"]["case"].get("deep"):
+        dn, sh, op = art["violation"]["case"]["deep"]
+        return [{"kind": k, "detail": d} for k, d in check_deep(dn, sh, op, None, want=kind)]
+    pr = detuple(art["violation"]["case"]["problem"])
     if art["violation"]["case"].get("warm"):
         fs = check_warm_objects(pr, "quick", 0, None, want=kind.replace(":warm-objects", ""))
         return [{"kind": k + ":warm-objects", "detail": d} for k, d in fs]
